@@ -33,8 +33,40 @@ pub fn run(o: &Opts) {
         }
     }
     direct(&mut tr);
+    matrix_direct(&mut tr);
     tr.emit(json!({"ev":"end"}));
     println!("events={}", tr.finish());
+}
+
+/// Row indices beyond the current height of a binary matrix (after a shrinking resize the storage may still hold the old
+/// rows): every such call must be refused; in-range controls must be served.  Nothing else is judged here.
+fn matrix_direct(tr: &mut Trace) {
+    use raptorq::{BinaryMatrix, DenseBinaryMatrix, Octet, SparseBinaryMatrix};
+    fn probe<M: BinaryMatrix>(name: &str, tr: &mut Trace) {
+        let mut m = M::new(16, 128, 1);
+        for i in 0..16 {
+            m.set(i, (i * 7) % 128, Octet::one());
+            m.set(i, 127, Octet::one());
+        }
+        m.resize(8, 128);
+        let mut calls = vec![];
+        let mut call = |label: &str, inrange: bool, f: &mut dyn FnMut(&mut M)| {
+            let r = std::panic::catch_unwind(std::panic::AssertUnwindSafe(|| f(&mut m)));
+            calls.push(json!({"op": label, "inrange": inrange, "res": if r.is_ok() { "ok" } else { "panic" }}));
+        };
+        call("add_assign_rows(1,0,0)", true, &mut |m| m.add_assign_rows(1, 0, 0));
+        call("swap_rows(2,3)", true, &mut |m| m.swap_rows(2, 3));
+        call("get(7,127)", true, &mut |m| { m.get(7, 127); });
+        call("add_assign_rows(12,0,0)", false, &mut |m| m.add_assign_rows(12, 0, 0));
+        call("add_assign_rows(0,12,0)", false, &mut |m| m.add_assign_rows(0, 12, 0));
+        call("add_assign_rows(8,0,0)", false, &mut |m| m.add_assign_rows(8, 0, 0));
+        call("swap_rows(0,12)", false, &mut |m| m.swap_rows(0, 12));
+        call("set(12,127,1)", false, &mut |m| m.set(12, 127, Octet::one()));
+        call("get(12,127)", false, &mut |m| { m.get(12, 127); });
+        tr.emit(json!({"ev":"matdirect","matrix":name,"calls":calls}));
+    }
+    probe::<DenseBinaryMatrix>("dense", tr);
+    probe::<SparseBinaryMatrix>("sparse", tr);
 }
 
 /// Every (dest, src) pair of small slabs - equal indices and indices one and two past the end included - is
